@@ -327,6 +327,13 @@ func (r *Run) execLin(ci, oi int, op *Op) {
 			r.probe("request met the bucket while it was being deleted and re-created")
 			return false
 		}
+		if !resp.OK() && resp.Status < 500 && r.Plan.Config.PathKeys && r.Plan.Config.IsFS() && op.K != "del" {
+			// the key universe of this run holds a key below another key: a
+			// file-system backend refuses the one that comes second; the
+			// refused request has no effect and is not recorded
+			r.probe("upload refused: key in a path relation with a stored key (concurrent run)")
+			return false
+		}
 		if !resp.OK() {
 			r.linFail("lin.register", what+" fails although nothing can make it fail in a sequential execution", "2xx", resp.String()+" "+resp.Msg)
 		}
@@ -465,6 +472,10 @@ func (r *Run) execLin(ci, oi int, op *Op) {
 		case resp.Status == 404 && resp.Code == "NoSuchKey":
 			h.add(src, ci, call, ret, regIn{Kind: "r"}, regOut{""}, "copy-read -> <absent>")
 		case resp.Status == 404 && resp.Code == "NoSuchBucket" && h.bucketMayBeAbsent(call):
+		case resp.Status >= 400 && resp.Status < 500 && r.Plan.Config.PathKeys && r.Plan.Config.IsFS():
+			// the destination lies below a stored key (or above one): refused, no effect;
+			// what the copy read of its source is not known and not recorded
+			r.probe("upload refused: key in a path relation with a stored key (concurrent run)")
 		default:
 			r.linFail("lin.register", "copy answers neither success nor NoSuchKey", "200 or 404", resp.String()+" "+resp.Msg)
 		}
